@@ -58,12 +58,12 @@ def histogram(line):
 
 
 _COQ_DIR = os.path.join(os.path.dirname(os.path.dirname(os.path.abspath(__file__))), "coq", "score")
-_BASE_FILES = ["ScoreModel.v", "SimdModel.v", "GenAvx2.v", "GenLane4.v", "GenScores.v", "ScoresModel.v",
+_BASE_FILES = ["ScoreModel.v", "ScorePadModel.v", "SimdModel.v", "GenAvx2.v", "GenLane4.v", "GenScores.v", "ScoresModel.v",
                "ScoreCheck.v", "ScoreProofs.v",
-               "SimdProofs.v", "Sse2Proofs.v", "F32Proofs.v", "CheckProofs.v", "ReadmeExample.v", "C01.v",
+               "SimdProofs.v", "Sse2Proofs.v", "F32Proofs.v", "CheckProofs.v", "ScorePad.v", "ReadmeExample.v", "C01.v",
                "ScoresProofs.v", "C01Scores.v", "Extract.v"]
 # the only files that depend on another model group (coq/stripe, property C04)
-_BRIDGE_FILES = ["StripeBridge.v", "C01History.v"]
+_BRIDGE_FILES = ["StripeBridge.v", "StripePadBridge.v", "C01History.v"]
 
 
 def _write_project(bridge):
